@@ -22,6 +22,14 @@
 (*   not ask but shares its prefix with one that did.                                              *)
 (* Implementation layer: one action per call of the pinned code (deterministic), the circuits      *)
 (* table in dict order (send() takes circuits[0]), the deque(maxlen = QCap).                       *)
+(* HOW A CIRCUIT ENDS.  A circuit stops being a ready circuit the moment it is taken down - by     *)
+(* Circuit.close() on the object or by TunnelCommunity.remove_circuit(), with or without a reason  *)
+(* text, with or without remove_now / destroy (CloseWays) - whatever the call looked like.  That   *)
+(* is the abstract truth `closing` of a circuit; what the object REPORTS as its state is the       *)
+(* implementation's `st`, and send() reads only that (StateFollowsClose demands they agree).       *)
+(* remove_circuit() leaves the circuit in the table for remove_tunnel_delay seconds: `due` is the  *)
+(* queue of pending removal timers, RemovalDue = the earliest one fires and the circuit leaves the *)
+(* table.  Sends inside that window are the "circuit closing while the queue is non-empty" case.   *)
 EXTENDS Naturals, Sequences, FiniteSets, TLC, SequencesExt
 
 CONSTANTS Pfx,           \* overlay prefixes that send through the endpoint
@@ -34,7 +42,10 @@ CONSTANTS Pfx,           \* overlay prefixes that send through the endpoint
           MaxInst,       \* overlay instances 1..MaxInst (one per prefix exists at the start; bounds the model)
           Lifecycle,     \* instances are loaded / unloaded during the behaviour
           UnloadClears,  \* negative control: unloading an instance switches anonymity of its prefix off
-          CandInit       \* initial values of cand (the life-cycle configurations start without candidates)
+          CandInit,      \* initial values of cand (the life-cycle configurations start without candidates)
+          CloseWays,     \* the ways a circuit is taken down in this configuration (subset of AllCloseWays)
+          ReasonDecides, \* negative control: the circuit only reports CLOSING when a reason text was given
+          ReadyInit      \* a behaviour starts with a ready 1-hop circuit ending in an IPv8 exit in the table
 
 VARIABLES anon,      \* [Pfx -> BOOLEAN] the per-prefix switch = TunnelEndpoint.settings (missing = FALSE)
           insts,     \* overlay instances on the endpoint in order of construction: [p, req, loaded]; req = this
@@ -43,21 +54,29 @@ VARIABLES anon,      \* [Pfx -> BOOLEAN] the per-prefix switch = TunnelEndpoint.
           attached,  \* tunnel_community is not None
           hopsCfg,   \* TunnelEndpoint.hops
           cand,      \* the tunnel community knows an IPv8 exit and a relay candidate (environment)
-          circuits,  \* TunnelCommunity.circuits in insertion order: [id, goal, len, closing, flag]
+          circuits,  \* TunnelCommunity.circuits in insertion order: [id, goal, len, closing, flag, st]
+                     \* closing = it was taken down (abstract truth), st = Circuit.state reports CLOSING
+          due,       \* pending removal timers of remove_circuit() in the order they were armed: circuit ids
           ncirc,     \* circuit ids handed out so far
           queue,     \* TunnelEndpoint.send_queue : sequence of packet ids
           nsent,     \* packets handed to send() so far (packet ids 1..nsent)
           out,       \* what the LAST step put on the wire: sequence of [k, pkt, cid]
           last,      \* the last step: [kind |-> "plain"/"anon"/"open"/"fill"/"env", pkt] (kind of a send = KindOf)
           depth      \* number of steps taken (exploration bound only; multi-worker TLC has no exact level)
-vars == <<anon, insts, asked, attached, hopsCfg, cand, circuits, ncirc, queue, nsent, out, last, depth>>
+vars == <<anon, insts, asked, attached, hopsCfg, cand, circuits, due, ncirc, queue, nsent, out, last, depth>>
 
 Raw(pkt)      == [k |-> "raw", pkt |-> pkt, cid |-> 0]
 Tun(pkt, cid) == [k |-> "tun", pkt |-> pkt, cid |-> cid]
 
 (* ------------------------------------------------------------------------------------------- *)
 (* circuits                                                                                      *)
-IsReady(c)  == ~c.closing /\ c.len >= c.goal          \* Circuit.state = READY
+IsReady(c)  == ~c.closing /\ c.len >= c.goal          \* a ready circuit: complete and not taken down
+StateReady(c) == ~c.st /\ c.len >= c.goal            \* implementation layer: Circuit.state = READY
+(* the ways a circuit is taken down: Circuit.close() / close(reason) on the object,                *)
+(* TunnelCommunity.remove_circuit(id) / (id, reason) / (id, remove_now=True) / (id, reason, destroy=1) *)
+AllCloseWays == {"close", "closeR", "remove", "removeR", "removeNow", "removeD"}
+HasReason(w) == w \in {"closeR", "removeR", "removeD"}
+ViaRemove(w) == w \in {"remove", "removeR", "removeNow", "removeD"}
 (* "a ready circuit of the configured length ending in an IPv8-capable exit" *)
 RightCircuit(c, hops) == IsReady(c) /\ c.goal = hops /\ c.len >= 1 /\ c.flag
 
@@ -106,13 +125,16 @@ AbsStep == Judge(IF last'.kind = "fill" THEN "anon" ELSE last'.kind, last'.pkt, 
 (* ------------------------------------------------------------------------------------------- *)
 (* IMPLEMENTATION LAYER                                                                          *)
 PfxSeq == SetToSeq(Pfx)
+NewCircuit(id, goal) == [id |-> id, goal |-> goal, len |-> 0, closing |-> FALSE, flag |-> FALSE, st |-> FALSE]
 Init == /\ anon \in [Pfx -> BOOLEAN]        \* Community.__init__: settings.anonymize
         /\ insts = [i \in 1..Len(PfxSeq) |-> [p |-> PfxSeq[i], req |-> anon[PfxSeq[i]], loaded |-> TRUE]]
         /\ asked = anon
         /\ attached \in BOOLEAN             \* TunnelCommunity.__init__ registers itself when the endpoint is its own
         /\ hopsCfg = IF attached THEN 1 ELSE 0
         /\ cand \in CandInit
-        /\ circuits = <<>> /\ ncirc = 0 /\ queue = <<>> /\ nsent = 0 /\ out = <<>>
+        /\ circuits = IF ReadyInit THEN <<[NewCircuit(1, 1) EXCEPT !.len = 1, !.flag = TRUE]>> ELSE <<>>
+        /\ ncirc = Len(circuits)
+        /\ due = <<>> /\ queue = <<>> /\ nsent = 0 /\ out = <<>>
         /\ last = [kind |-> "env", pkt |-> 0]
         /\ depth = 0
 
@@ -129,7 +151,6 @@ Matching    == SelectSeq(circuits, Matches)
 (* TunnelCommunity.create_circuit(hops, exit_flags=[IPV8]) succeeds with candidates; for more than *)
 (* one hop the first hops of existing circuits are reused as first hop as well                    *)
 WouldCreate == cand \/ (hopsCfg > 1 /\ circuits # <<>>)
-NewCircuit(id, goal) == [id |-> id, goal |-> goal, len |-> 0, closing |-> FALSE, flag |-> FALSE]
 
 (* a send by instance snd (loaded or not: a strategy tick or a stale reference may still call it); what *)
 (* the code does follows the SWITCH of the prefix, how the step is judged follows WHO ASKED (KindOf)  *)
@@ -138,7 +159,7 @@ SendPlain(snd) ==
   /\ nsent' = nsent + 1
   /\ out' = <<Raw(nsent + 1)>>
   /\ last' = [kind |-> KindOf(insts, asked, snd), pkt |-> nsent + 1]
-  /\ UNCHANGED <<anon, insts, asked, attached, hopsCfg, cand, circuits, ncirc, queue>>
+  /\ UNCHANGED <<anon, insts, asked, attached, hopsCfg, cand, circuits, due, ncirc, queue>>
 
 SendAnon(snd) ==
   /\ snd \in DOMAIN insts /\ anon[insts[snd].p] /\ Tick
@@ -156,19 +177,19 @@ SendAnon(snd) ==
            ELSE UNCHANGED <<circuits, ncirc>>
         /\ queue' = Push(queue, k) /\ out' = <<>>
      ELSE LET c == Matching[1] IN
-        IF ~IsReady(c) /\ ~AnyState THEN
+        IF ~StateReady(c) /\ ~AnyState THEN
            /\ queue' = Push(queue, k) /\ out' = <<>>
            /\ UNCHANGED <<circuits, ncirc>>
         ELSE
            /\ out' = <<Tun(k, c.id)>> \o [i \in 1..Len(queue) |-> Tun(queue[i], c.id)]
            /\ queue' = <<>>
            /\ UNCHANGED <<circuits, ncirc>>
-  /\ UNCHANGED <<anon, insts, asked, attached, hopsCfg, cand>>
+  /\ UNCHANGED <<anon, insts, asked, attached, hopsCfg, cand, due>>
 
 (* QCap - 1 - Len(queue) anonymised sends in a row while nothing can be sent or created           *)
 FillQueue(snd) ==
   /\ snd \in DOMAIN insts /\ anon[insts[snd].p] /\ KindOf(insts, asked, snd) # "plain" /\ attached /\ Tick
-  /\ \/ Matching # <<>> /\ ~IsReady(Matching[1]) /\ ~AnyState
+  /\ \/ Matching # <<>> /\ ~StateReady(Matching[1]) /\ ~AnyState
      \/ Matching = <<>> /\ ~WouldCreate
   /\ Len(queue) < QCap - 1
   /\ LET n == QCap - 1 - Len(queue) IN
@@ -176,14 +197,14 @@ FillQueue(snd) ==
        /\ nsent' = nsent + n
        /\ last' = [kind |-> "fill", pkt |-> nsent + n]
   /\ out' = <<>>
-  /\ UNCHANGED <<anon, insts, asked, attached, hopsCfg, cand, circuits, ncirc>>
+  /\ UNCHANGED <<anon, insts, asked, attached, hopsCfg, cand, circuits, due, ncirc>>
 
 EnvStep == Tick /\ out' = <<>> /\ last' = Env /\ UNCHANGED <<nsent, queue, cand>>
 
 ToggleAnon(p) == /\ anon' = [anon EXCEPT ![p] = ~@]                 \* set_anonymity(prefix, not current)
                  /\ insts' = InstsAfterSet(insts, p, ~anon[p])
                  /\ asked' = AskedAfterSet(asked, p, ~anon[p])
-                 /\ EnvStep /\ UNCHANGED <<attached, hopsCfg, circuits, ncirc>>
+                 /\ EnvStep /\ UNCHANGED <<attached, hopsCfg, circuits, due, ncirc>>
 
 (* Community.__init__ of another instance for prefix p on the same endpoint (a reload, a replacement *)
 (* brought up before the old one goes): anonymize = TRUE registers the prefix, FALSE touches nothing *)
@@ -191,41 +212,53 @@ Load(p, a) == /\ Lifecycle /\ Len(insts) < MaxInst
               /\ insts' = InstsAfterLoad(insts, p, a)
               /\ asked' = AskedAfterLoad(asked, p, a)
               /\ anon' = IF a THEN [anon EXCEPT ![p] = TRUE] ELSE anon
-              /\ EnvStep /\ UNCHANGED <<attached, hopsCfg, circuits, ncirc>>
+              /\ EnvStep /\ UNCHANGED <<attached, hopsCfg, circuits, due, ncirc>>
 
 (* Community.unload() of instance i: the switch of the prefix is shared state of the endpoint and  *)
 (* stays as it is (other instances of the prefix, late sends of this one)                          *)
 Unload(i) == /\ Lifecycle /\ i \in DOMAIN insts /\ insts[i].loaded
              /\ insts' = InstsAfterUnload(insts, i)
              /\ anon' = IF UnloadClears /\ insts[i].req THEN [anon EXCEPT ![insts[i].p] = FALSE] ELSE anon
-             /\ EnvStep /\ UNCHANGED <<asked, attached, hopsCfg, circuits, ncirc>>
+             /\ EnvStep /\ UNCHANGED <<asked, attached, hopsCfg, circuits, due, ncirc>>
 
 Attach(h) == /\ h \in 1..MaxHops /\ (~attached \/ h # hopsCfg)      \* set_tunnel_community(tc, h)
              /\ attached' = TRUE /\ hopsCfg' = h
-             /\ EnvStep /\ UNCHANGED <<anon, insts, asked, circuits, ncirc>>
+             /\ EnvStep /\ UNCHANGED <<anon, insts, asked, circuits, due, ncirc>>
 
 Detach == /\ attached                                               \* set_tunnel_community(None)
           /\ attached' = FALSE /\ hopsCfg' = 1
-          /\ EnvStep /\ UNCHANGED <<anon, insts, asked, circuits, ncirc>>
+          /\ EnvStep /\ UNCHANGED <<anon, insts, asked, circuits, due, ncirc>>
 
 (* the tunnel community starts a circuit on its own (do_circuits / another user) *)
 AddCircuit(goal) == /\ goal \in 1..MaxHops /\ ncirc < MaxCid
                     /\ circuits' = Append(circuits, NewCircuit(ncirc + 1, goal))
                     /\ ncirc' = ncirc + 1
-                    /\ EnvStep /\ UNCHANGED <<anon, insts, asked, attached, hopsCfg>>
+                    /\ EnvStep /\ UNCHANGED <<anon, insts, asked, attached, hopsCfg, due>>
 
 (* created / extended arrives: one more hop, f = that hop advertises PEER_FLAG_EXIT_IPV8 *)
 HopAdded(i, f) == /\ i \in DOMAIN circuits /\ circuits[i].len < circuits[i].goal
                   /\ circuits' = [circuits EXCEPT ![i].len = @ + 1, ![i].flag = f]
-                  /\ EnvStep /\ UNCHANGED <<anon, insts, asked, attached, hopsCfg, ncirc>>
+                  /\ EnvStep /\ UNCHANGED <<anon, insts, asked, attached, hopsCfg, due, ncirc>>
 
-CircuitClosing(i) == /\ i \in DOMAIN circuits /\ ~circuits[i].closing
-                     /\ circuits' = [circuits EXCEPT ![i].closing = TRUE]
-                     /\ EnvStep /\ UNCHANGED <<anon, insts, asked, attached, hopsCfg, ncirc>>
+(* the circuit is taken down in way w: from now on it is not a ready circuit, and its state says so *)
+(* whatever the call looked like; remove_circuit() also arms the timer that takes it off the table *)
+CircuitClosing(i, w) == /\ i \in DOMAIN circuits /\ ~circuits[i].closing /\ w \in CloseWays
+                        /\ circuits' = [circuits EXCEPT ![i].closing = TRUE,
+                                                         ![i].st = (~ReasonDecides \/ HasReason(w))]
+                        /\ due' = IF ViaRemove(w) THEN Append(due, circuits[i].id) ELSE due
+                        /\ EnvStep /\ UNCHANGED <<anon, insts, asked, attached, hopsCfg, ncirc>>
 
+(* the table entry disappears at once (the environment pops it); a removal timer that is still     *)
+(* pending for it stays armed and finds nothing when it fires                                      *)
 CircuitRemoved(i) == /\ i \in DOMAIN circuits
                      /\ circuits' = [j \in 1..(Len(circuits) - 1) |-> IF j < i THEN circuits[j] ELSE circuits[j + 1]]
-                     /\ EnvStep /\ UNCHANGED <<anon, insts, asked, attached, hopsCfg, ncirc>>
+                     /\ EnvStep /\ UNCHANGED <<anon, insts, asked, attached, hopsCfg, due, ncirc>>
+
+(* remove_tunnel_delay has passed for the earliest pending removal: circuits.pop(circuit_id, None) *)
+RemovalDue == /\ due # <<>>
+              /\ LET Keep(c) == c.id # Head(due) IN circuits' = SelectSeq(circuits, Keep)
+              /\ due' = Tail(due)
+              /\ EnvStep /\ UNCHANGED <<anon, insts, asked, attached, hopsCfg, ncirc>>
 
 Next == \/ \E i \in 1..MaxInst : SendAnon(i)
         \/ \E i \in 1..MaxInst : SendPlain(i)
@@ -237,8 +270,9 @@ Next == \/ \E i \in 1..MaxInst : SendAnon(i)
         \/ Detach
         \/ \E g \in 1..MaxHops : AddCircuit(g)
         \/ \E i \in 1..MaxCid, f \in BOOLEAN : HopAdded(i, f)
-        \/ \E i \in 1..MaxCid : CircuitClosing(i)
+        \/ \E i \in 1..MaxCid, w \in CloseWays : CircuitClosing(i, w)
         \/ \E i \in 1..MaxCid : CircuitRemoved(i)
+        \/ RemovalDue
 
 Spec == Init /\ [][Next]_vars
 
@@ -251,6 +285,11 @@ TypeOK == /\ anon \in [Pfx -> BOOLEAN] /\ attached \in BOOLEAN /\ hopsCfg \in 0.
           /\ \A i \in DOMAIN circuits : circuits[i].id \in 1..ncirc /\ circuits[i].len <= circuits[i].goal
           /\ \A i, j \in DOMAIN circuits : i # j => circuits[i].id # circuits[j].id
           /\ Range(queue) \subseteq 1..nsent
+          /\ CloseWays \subseteq AllCloseWays
+          /\ \A i \in DOMAIN circuits : circuits[i].closing \in BOOLEAN /\ circuits[i].st \in BOOLEAN
+          /\ Range(due) \subseteq 1..ncirc /\ Len(due) = Cardinality(Range(due))
+          \* a pending removal timer belongs to a circuit that was taken down (or is gone already)
+          /\ \A k \in DOMAIN due : \A j \in DOMAIN circuits : circuits[j].id = due[k] => circuits[j].closing
 
 (* the four named invariants of the design, over the last step (a send() never changes an existing *)
 (* circuit, so the configuration after the step is the one the emissions were made under)          *)
@@ -262,9 +301,15 @@ TunnelledOnlyOverReadyRightCircuit ==
   \A i \in DOMAIN out : out[i].k = "tun" =>
      attached /\ \E j \in DOMAIN circuits : circuits[j].id = out[i].cid /\ RightCircuit(circuits[j], hopsCfg)
 QueueBounded == Len(queue) <= QCap /\ Len(queue) = Cardinality(Range(queue)) /\ Emitted(out) \cap Range(queue) = {}
+(* implementation layer: what the circuit object reports is what happened to it - a circuit that   *)
+(* was taken down reports CLOSING (and only such a circuit does), in whatever way it was taken down *)
+StateFollowsClose == \A i \in DOMAIN circuits : circuits[i].st = circuits[i].closing
 PlainUnaffected == last.kind = "plain" => out = <<Raw(last.pkt)>>
 
 (* refinement: every step of the implementation layer is allowed by the abstract layer *)
 ImplRefinesAbs == [][AbsStep]_vars
 PlainLeavesQueue == [][last'.kind = "plain" => queue' = queue]_vars
+(* taken down is for good: a circuit never gets ready again, and it leaves the table only whole    *)
+ClosedForGood == [][\A i \in DOMAIN circuits : \A j \in DOMAIN circuits' :
+                      (circuits[i].id = circuits'[j].id /\ circuits[i].closing) => ~IsReady(circuits'[j])]_vars
 =============================================================================
